@@ -87,4 +87,19 @@ example : exGrid.Compat := by
 
 example : (gridLines exGrid) matches .ok [_, _] := by decide
 
+/-- the hypotheses of `grid_roundtrip` are inhabited (one-row `xyz`, length-1 `cd` for two grids) -/
+example : ∀ r ∈ exGrid.rows, r.Clean exGrid.w := by
+  have hrows : exGrid.rows = [⟨101, 0, txt "    1.50", txt "   -2.25", txt "    3.12", 12, none, none⟩,
+      ⟨102, 0, txt "    1.50", txt "   -2.25", txt "    3.12", 12, none, none⟩] := by decide
+  have cf : ∀ f ∈ [txt "    1.50", txt "   -2.25", txt "    3.12"], CleanField 8 f := by
+    intro f hf
+    simp only [List.mem_cons, List.not_mem_nil, or_false] at hf
+    rcases hf with rfl | rfl | rfl <;>
+      exact ⟨⟨by decide, by decide, by decide⟩, by intro c hc; simp [txt] at hc; subst hc; decide⟩
+  intro r hr
+  rw [hrows] at hr
+  simp only [List.mem_cons, List.not_mem_nil, or_false] at hr
+  rcases hr with rfl | rfl <;>
+    exact ⟨cf _ (by simp), cf _ (by simp), cf _ (by simp), by decide, by decide, by decide, by simp, by simp⟩
+
 end PyYetiVerif.C13
